@@ -218,6 +218,8 @@ pub enum MalClass {
     Trailing,         // trailing garbage after the last field
     BadTopicUtf8,     // invalid UTF-8 in a PUBLISH topic
     TooLarge,         // larger than the receive buffer (assigned by callers, not here)
+    /// a property identifier MQTT 5 does not define at all (the value that follows cannot even be delimited)
+    UnknownProperty,
     // Everything else the specification calls malformed / protocol error:
     Other,
 }
@@ -382,6 +384,7 @@ pub fn read_props(r: &mut Rd<'_>, ctx: Ctx) -> Result<Vec<Prop>, Bad> {
         // delimited correctly, so the packet framing is intact) - except a variable byte integer that is
         // non-canonical or too long: that is malformed wherever it stands
         Bad::Malformed(MalClass::BadVarint, why) => Bad::Malformed(MalClass::BadVarint, why),
+        Bad::Malformed(MalClass::UnknownProperty, why) => Bad::Malformed(MalClass::UnknownProperty, why),
         Bad::Malformed(_, why) => Bad::Malformed(MalClass::Other, why),
         other => other,
     })
@@ -392,7 +395,7 @@ fn read_props_inner(sub: &mut Rd<'_>, ctx: Ctx) -> Result<Vec<Prop>, Bad> {
     while sub.left() > 0 {
         let id = sub.varint()?;
         let Some(ty) = prop_type(id) else {
-            return mal(MalClass::Other, "unknown property identifier");
+            return mal(MalClass::UnknownProperty, "unknown property identifier");
         };
         let id = id as u8;
         let val = match ty {
